@@ -75,14 +75,14 @@ PROPS['C16'] = {
 
 PROPS['C01'] = {
     'title': 'Committed values read back exactly, for every column type and offset',
-    'modules': ['ColumnVerif.Props.C01', 'ColumnVerif.Props.C01str', 'ColumnVerif.Props.C01store', 'ColumnVerif.Props.C01storeAny'],
-    'runs': [{'mode': 'store'}],
+    'modules': ['ColumnVerif.Props.C01', 'ColumnVerif.Props.C01str', 'ColumnVerif.Props.C01store', 'ColumnVerif.Props.C01storeAny', 'ColumnVerif.Props.C01widen'],
+    'runs': [{'mode': 'store'}, {'mode': 'widen'}],
     'trusted_base': STORE_TB,
     'assumptions': [
         "store-level read-back through the real Store.commit (any number of dirty chunks, any sequence of commits): Props/C01store for numeric columns, Props/C01storeAny for every data kind — commit_col: the column after a commit IS the fold of applyData over the dirty chunks (markers, then the ops of the column), an equality of column records; string/record columns under the guard ChunksOK (no pass appends, or each chunk has one section in a well-formed buffer: resizing merges allowed) — without it finding D12 hits the primary itself (kernel-checked d12_on_primary: merge then put of one offset in two sections reads back the merge)",
         "guards = recorded findings: D10 (write+delete of one row), D11 (merge onto a slot occupied before), D12 (op after a resizing merge), D20 (enum hash collision); strings ≤ 65535 bytes",
     ],
-    'level_text': "Lean theorems over the executable store model: commit_readback — after Store.commit (any number of dirty chunks; and after any sequence of commits) every slot of a numeric column is the fold, in issue order, of the transaction's row markers and of the operations it issued for that column and offset, over the previous content; untouched offsets and columns are unchanged; the fill bit is the fold of the markers; no panic under the cover invariant (which CreateColumn's repair and commitCapacity maintain). Column level: for numeric, string, record and enum columns, [store level, every data kind: commit_col / commits_col, commit_read_str_last_put, commit_read_key_last_put] after the chunk's pass every slot is the fold, in issue order, of the operations addressed to it (any merge function, any number of ops, offsets in any order); untouched offsets keep their content; the last Put decides; typed readers return the slot iff present; big-endian numeric bytes are bit-exact; missing chunk = panic (why D6 had to be repaired); counterexamples for D11/D12/D20. Tied to the code by differential histories over all 16 column kinds, boundary values, several chunks, late columns, all capacities, with a Go-side reference interpreter as implementation-only oracle.",
+    'level_text': "Lean theorems over the executable store model: commit_readback — after Store.commit (any number of dirty chunks; and after any sequence of commits) every slot of a numeric column is the fold, in issue order, of the transaction's row markers and of the operations it issued for that column and offset, over the previous content; untouched offsets and columns are unchanged; the fill bit is the fold of the markers; no panic under the cover invariant (which CreateColumn's repair and commitCapacity maintain). Column level: for numeric, string, record and enum columns, [store level, every data kind: commit_col / commits_col, commit_read_str_last_put, commit_read_key_last_put] after the chunk's pass every slot is the fold, in issue order, of the operations addressed to it (any merge function, any number of ops, offsets in any order); untouched offsets keep their content; the last Put decides; typed readers return the slot iff present; big-endian numeric bytes are bit-exact; the any-size readers of `int` / `uint` columns (Props/C01widen: a 16-, 32- or 64-bit integer written at its own width — what Row.SetAny / SetMany do with a narrower Go value — reads back as the same number, sign- resp. zero-extended into the 8-byte slot; other widths panic); missing chunk = panic (why D6 had to be repaired); counterexamples for D11/D12/D20. Tied to the code by differential histories over all 16 column kinds, boundary values, several chunks, late columns, all capacities, with a Go-side reference interpreter as implementation-only oracle.",
     'technique': 'Lean 4 proof (fold semantics of the apply pass by induction over op lists) + model/implementation correspondence',
     'design_ref': '§6 C01',
 }
